@@ -59,8 +59,8 @@ def cases(rng, quick):
                 seqs.append([rng.choice(bad) for _ in range(k)])
         return seqs
     for how in HOWS_ANY:
-        for ty in TYPES:
-            if how == "stack" and ty in ("Array", "Probe"):
+        for ty in TYPES + ["Half"]:            # Half: a type that brings its own allocator (like the library's Type)
+            if how == "stack" and ty in ("Array", "Probe", "Half"):
                 continue
             cls = "stack" if how == "stack" else "heap"
             reg = how in ("new", "new_root", "alloc", "alloc_root")
